@@ -4,17 +4,18 @@ CONSTANTS
   CELLS <- CELLS_q
   GENS <- GENS_q
   ROTS <- ROTS_id
-  MaxDepth = 6
+  MaxDepth = 8
   FORGET = {}
-  NOCOPY = {"B"}
-  OBJ = "grain"
+  NOCOPY = {}
+  OBJ = "tmap"
   ALIASARG = FALSE
   UNWRITTEN = {}
-  EmitMode = 0
+  EmitMode = 1
 INVARIANT Coherent
 INVARIANT ReadFresh
 INVARIANT DepClosed
 INVARIANT CacheType
 INVARIANT UbiOwn
+ACTION_CONSTRAINT EmitTransition
 VIEW View
 CHECK_DEADLOCK FALSE
